@@ -214,7 +214,7 @@ let () =
                print_endline (show d'))))
     | "vdoc" :: nf :: toks ->
       (* vdoc <n> {<text cps> <x | f:k:num:den:repr cps>}*n <tree>;  tree := <tag> <text cps> <nattrs> {<name cps> <value cps>}* ( tree* )
-         answer: NOMACHINE <tag> | <premise bit> NOPARSE | <premise bit> NOEMIT | <premise bit> OK <tree> *)
+         answer: NOMACHINE <tag> | <premise> NOPARSE | <premise> NOEMIT | <premise> OK <tree>;  premise: 2 = of C09_document_values, 1 = of C09_document_values_general only, 0 = neither *)
       let st = ref toks in
       let next () = match !st with [] -> failwith "eof" | h :: t -> st := t; h in
       let peek () = match !st with [] -> "" | h :: _ -> h in
@@ -234,7 +234,7 @@ let () =
       (match L.find_opt (fun t -> DocTables.elem_tpl t = None) (tags d) with
        | Some t -> print_endline ("NOMACHINE " ^ string_of_int (int_of_pos t))
        | None ->
-         let prem = if DocValTables.vvalidb d then "1 " else "0 " in
+         let prem = if DocValTables.gvalidb (DocValTables.float_table ft) d then (if DocValTables.vvalidb d then "2 " else "1 ") else "0 " in
          (match DocValTables.vrun ft d with
           | DocValTables.VNoParse -> print_endline (prem ^ "NOPARSE")
           | DocValTables.VNoEmit -> print_endline (prem ^ "NOEMIT")
